@@ -104,7 +104,7 @@ class Monitor:
         self.closed_seq: int | None = None  # index into w.log when CLOSED was first observed
         self.n = 0
 
-    def __call__(self, handle: Any = None) -> None:
+    def __call__(self, handle: Any = None, transitions_only: bool = False) -> None:
         self.n += 1
         c = self.w.conn
         s = c.connection_state.name
@@ -122,6 +122,8 @@ class Monitor:
             self.viol.append(f"C05:is_connected={c.is_connected} in {s}")
         if s == "CONNECTED":
             self.ever_connected = True
+        if transitions_only:
+            return  # in the middle of a library function: audits of timers/resources belong to callback boundaries
         for hook in self.w.extra_monitors:
             hook(self)
 
@@ -167,10 +169,25 @@ class LifeWorld(ConnWorld):
                 return orig(conn, t, d)
 
             APIConnection.process_packet = process_packet  # type: ignore[method-assign]
+        # observation point "every assignment of the state": the transition relation is also checked on states that exist only
+        # inside one loop callback (a log handler, a debugger or a signal handler can see them; nothing else can)
+        self._orig_set_state = APIConnection.__dict__.get("_set_connection_state")
+        if self._orig_set_state is not None:
+            world2 = self
+            orig_set = self._orig_set_state
+
+            def _set_connection_state(conn: Any, state: Any) -> None:
+                orig_set(conn, state)
+                if conn is world2.conn:
+                    world2.mon(None, True)
+
+            APIConnection._set_connection_state = _set_connection_state  # type: ignore[method-assign]
 
     def close(self) -> None:
         if self._orig_process_packet is not None:
             self._apiconn_cls.process_packet = self._orig_process_packet  # type: ignore[method-assign]
+        if getattr(self, "_orig_set_state", None) is not None:
+            self._apiconn_cls._set_connection_state = self._orig_set_state  # type: ignore[method-assign]
         super().close()
 
     def _before_cb(self, handle: Any) -> None:
